@@ -14,6 +14,7 @@
 #include <stdlib.h>
 #include <string.h>
 #include <unistd.h>
+#include <sys/resource.h>
 #include <mpi.h>
 #include <pnetcdf.h>
 
@@ -98,6 +99,7 @@ int main(int argc, char **argv) {
     FILE *in, *out;
     MPI_Init(&argc, &argv);
     MPI_Comm_rank(MPI_COMM_WORLD, &rank);
+    { struct rlimit rl; rl.rlim_cur = rl.rlim_max = (rlim_t)6 << 30; setrlimit(RLIMIT_AS, &rl); } /* a runaway allocation is a result, not a stuck machine */
     if (argc < 3) { fprintf(stderr, "usage\n"); MPI_Abort(MPI_COMM_WORLD, 2); }
     in = fopen(argv[1], "r");
     snprintf(outname, sizeof outname, "%s.%d", argv[2], rank);
@@ -108,7 +110,7 @@ int main(int argc, char **argv) {
         MPI_Offset numrecs = 0, hsize, hext, recsize;
         MPI_Offset dimlen[4096];
         if (sscanf(line, "%4095s", path) != 1) continue;
-        alarm(30);   /* per-request watchdog: a hang is a result (the driver script restarts after it) */
+        alarm(10);   /* per-request watchdog: a hang is a result (the driver script restarts after it) */
         err = ncmpi_open(MPI_COMM_WORLD, path, NC_NOWRITE, MPI_INFO_NULL, &ncid);
         if (err != NC_NOERR) { fprintf(out, "ERR %d\n", err); fflush(out); continue; }
         err = ncmpi_inq_format(ncid, &fmt); CHK(err);
